@@ -781,7 +781,7 @@ func (s *session) closeLocked() error {
 		return nil
 	} // readDisconnected is being called
 	vp("close.cas", s, 0, 0)
-	s.peer.sessHub.delete(s.ID())
+	s.peer.sessHub.deleteSession(s)
 	vp("close.deleted", s, 0, 0)
 	s.notifyClosed()
 	vp("close.notified", s, 0, 0)
@@ -814,7 +814,7 @@ RELOAD:
 		vp("rd.stored", s, 0, 0)
 	}
 
-	s.peer.sessHub.delete(s.ID())
+	s.peer.sessHub.deleteSession(s)
 	vp("rd.deleted", s, 0, 0)
 
 	var reason string
@@ -1042,6 +1042,14 @@ func (sh *SessionHub) len() int {
 // delete deletes the *session for a id.
 func (sh *SessionHub) delete(id string) {
 	sh.sessions.Delete(id)
+}
+
+// deleteSession deletes the *session, unless a newer session has taken over its id.
+func (sh *SessionHub) deleteSession(sess *session) {
+	id := sess.ID()
+	if cur, ok := sh.sessions.Load(id); ok && cur.(*session) == sess {
+		sh.sessions.Delete(id)
+	}
 }
 
 const (
